@@ -66,6 +66,38 @@ Definition classify (ebits mbits : N) (bits : N) : fclass :=
 Definition classify64 : N -> fclass := classify 11 52.
 Definition classify32 : N -> fclass := classify 8 23.
 
-(* to_toml_value() of an f64 / f32 with the given bit pattern, given std's `{}` text for it *)
+(* f64::from(f32) (`impl From<f32> for f64`, an exact conversion) on bit patterns:
+   sign kept; normal: exponent rebiased (127 -> 1023), mantissa shifted left by 29;
+   subnormal m * 2^-149 with highest set bit k: 2^(k-149) * (m / 2^k), a normal f64;
+   zero -> zero; inf -> inf; NaN -> a NaN (payload shifted). *)
+Definition widen32 (bits : N) : N :=
+  let mant := (bits mod 2 ^ 23)%N in
+  let ex := ((bits / 2 ^ 23) mod 2 ^ 8)%N in
+  let sign := ((bits / 2 ^ 31) mod 2)%N in
+  let '(e64, m64) :=
+      (if (ex =? 255) then (2047, mant * 2 ^ 29)
+       else if (ex =? 0) then
+         if (mant =? 0) then (0, 0)
+         else let k := N.log2 mant in (k + 874, (mant - 2 ^ k) * 2 ^ (52 - k))
+       else (ex + 896, mant * 2 ^ 29))%N in
+  (sign * 2 ^ 63 + e64 * 2 ^ 52 + m64)%N.
+
+(* to_toml_value() of an f64 with the given bit pattern, given std's `{}` text for it *)
 Definition write_f64 (bits : N) (std_text : bytes) : bytes := write_float (classify64 bits) std_text.
-Definition write_f32 (bits : N) (std_text : bytes) : bytes := write_float (classify32 bits) std_text.
+
+(* value.rs: <f32 as WriteTomlValue>::write_toml_value
+     match (self.is_sign_negative(), self.is_nan(), *self == 0.0) {
+         (true, true, _) => "-nan", (false, true, _) => "nan",
+         (true, false, true) => "-0.0", (false, false, true) => "0.0",
+         (_, false, false) => f64::from( *self ).write_toml_value(writer),
+     }
+   `std_text` is std's `{}` text of the WIDENED value (an f64). *)
+Definition write_f32 (bits : N) (std_text : bytes) : bytes :=
+  let c := classify32 bits in
+  match fc_neg c, fc_nan c, fc_zero c with
+  | true, true, _ => t_neg_nan
+  | false, true, _ => t_nan
+  | true, false, true => t_neg_zero
+  | false, false, true => t_zero
+  | _, false, false => write_f64 (widen32 bits) std_text
+  end.
